@@ -384,11 +384,11 @@ Proof. intro H. simpl. rewrite H. reflexivity. Qed.
 
 Lemma follow_static_assign f r c :
   typ r = typeOperator -> callback r = false -> getter r = false ->
-  nonempty (dst r) = true -> nonempty (src r) = true -> static r = true ->
+  nonempty (dst r) = true -> static r = true ->
   follow U (S f) r c =
     ctx_set_path U (w_lenBB c (S (lenBB c))) (dst r) (VBytes (src r)) (ins r).
 Proof.
-  intros H H1 H2 H3 H4 H5. simpl. rewrite H, H1, H2, H3, H4, H5. reflexivity.
+  intros H H1 H2 H3 H5. simpl. rewrite H, H1, H2, H3, H5. reflexivity.
 Qed.
 
 Lemma follow_callback f r c fn :
